@@ -17,6 +17,14 @@ def rmax (a b : Rat) : Rat := if a ≤ b then b else a
 def rmin4 (a b c d : Rat) : Rat := rmin (rmin a b) (rmin c d)
 def rmax4 (a b c d : Rat) : Rat := rmax (rmax a b) (rmax c d)
 
+inductive FKey where
+  | add | sub | rsub | mul | truediv | rtruediv
+  deriving Repr, DecidableEq
+
+inductive UKey where
+  | neg | abs
+  deriving Repr, DecidableEq
+
 /-- the formulas of `OperatorDistribution.supportInterval` on known bounds (l1, r1) of the object and
     (l2, r2) of the operand -/
 structure Formulas where
@@ -28,10 +36,26 @@ structure Formulas where
   rtruediv : Rat → Rat → Rat → Rat → Supp
   neg : Rat → Rat → Supp
   abs : Rat → Rat → Supp
-  /-- dunder names handled by the binary branch, with the formula each one uses -/
-  binOps : List (String × String)
-  /-- dunder names handled by the unary branch -/
-  unOps : List (String × String)
+  /-- operators handled by the binary branch (operator, reflected), with the formula each one uses -/
+  binOps : List (BinOp × Bool × FKey)
+  /-- operators handled by the unary branch -/
+  unOps : List (UnOp × UKey)
+
+def Formulas.binOf (F : Formulas) : FKey → Rat → Rat → Rat → Rat → Supp
+  | .add => F.add | .sub => F.sub | .rsub => F.rsub | .mul => F.mul | .truediv => F.truediv | .rtruediv => F.rtruediv
+
+def Formulas.unOf (F : Formulas) : UKey → Rat → Rat → Supp
+  | .neg => F.neg | .abs => F.abs
+
+/-- the association the dispatch of `supportInterval` must respect for the formulas to mean what they say -/
+def expectedBinOps : List (BinOp × Bool × FKey) :=
+  [(.add, false, .add), (.add, true, .add), (.sub, false, .sub), (.sub, true, .rsub),
+   (.mul, false, .mul), (.mul, true, .mul), (.truediv, false, .truediv), (.truediv, true, .rtruediv)]
+
+def expectedUnOps : List (UnOp × UKey) := [(.neg, .neg), (.abs, .abs)]
+
+def Formulas.tableOK (F : Formulas) : Bool :=
+  F.binOps.all (expectedBinOps.contains ·) && F.unOps.all (expectedUnOps.contains ·)
 
 /-- abstraction of a distribution for the purpose of `supportInterval` -/
 inductive SExpr where
@@ -47,30 +71,11 @@ inductive SExpr where
   | truncnormal (lo hi : Rat)
   deriving Inhabited
 
-def dunderOf (op : BinOp) (refl : Bool) : String :=
-  "__" ++ (if refl then "r" else "") ++
-    (match op with
-     | .add => "add" | .sub => "sub" | .mul => "mul" | .truediv => "truediv"
-     | .floordiv => "floordiv" | .mod => "mod" | .pow => "pow") ++ "__"
+def Formulas.binF (F : Formulas) (op : BinOp) (refl : Bool) : Option (Rat → Rat → Rat → Rat → Supp) :=
+  (F.binOps.find? (fun e => e.1 == op && e.2.1 == refl)).map fun e => F.binOf e.2.2
 
-def unDunderOf : UnOp → String
-  | .neg => "__neg__" | .pos => "__pos__" | .abs => "__abs__"
-
-def Formulas.binF (F : Formulas) (name : String) : Option (Rat → Rat → Rat → Rat → Supp) :=
-  match (F.binOps.find? (·.1 == name)).map (·.2) with
-  | some "add" => some F.add
-  | some "sub" => some F.sub
-  | some "rsub" => some F.rsub
-  | some "mul" => some F.mul
-  | some "truediv" => some F.truediv
-  | some "rtruediv" => some F.rtruediv
-  | _ => none
-
-def Formulas.unF (F : Formulas) (name : String) : Option (Rat → Rat → Supp) :=
-  match (F.unOps.find? (·.1 == name)).map (·.2) with
-  | some "neg" => some F.neg
-  | some "abs" => some F.abs
-  | _ => none
+def Formulas.unF (F : Formulas) (op : UnOp) : Option (Rat → Rat → Supp) :=
+  (F.unOps.find? (fun e => e.1 == op)).map fun e => F.unOf e.2
 
 /-- `supmin` / `supmax` over a list: None if any is None -/
 def supFold (f : Rat → Rat → Rat) : List (Option Rat) → Option Rat
@@ -95,6 +100,12 @@ def monoApply (f : Fn) (qs : List Rat) : Option Rat :=
   | [_] => none
   | q :: rest => some (rest.foldl (match f with | .max => ratMax | .min => ratMin) q)
 
+/-- one bound of a monotone function: `None if None in bounds else method(*bounds)`; the outer `none` = `method` raises -/
+def monoBound (f : Fn) (os : List (Option Rat)) : Option (Option Rat) :=
+  match allSome os with
+  | none => some none
+  | some qs => (monoApply f qs).map some
+
 mutual
   /-- `supportInterval(dist)`; the outer `none` = an exception is raised (no bounds are reported) -/
   def support (F : Formulas) (ivs : Nat → Supp) : SExpr → Option Supp
@@ -102,7 +113,7 @@ mutual
     | .opaque => some (none, none)
     | .leaf i => some (ivs i)
     | .bin op refl obj arg =>
-      match F.binF (dunderOf op refl) with
+      match F.binF op refl with
       | none => some (none, none)
       | some f =>
         (support F ivs obj).bind fun s1 => (support F ivs arg).bind fun s2 =>
@@ -110,7 +121,7 @@ mutual
           | (some l1, some r1), (some l2, some r2) => some (f l1 r1 l2 r2)
           | _, _ => some (none, none)
     | .un op obj =>
-      match F.unF (unDunderOf op) with
+      match F.unF op with
       | none => some (none, none)
       | some f =>
         (support F ivs obj).bind fun s =>
@@ -124,13 +135,7 @@ mutual
     | .mux opts => (supportList F ivs opts).map unionOfSupports
     | .mono f args =>
       (supportList F ivs args).bind fun ss =>
-        let lo : Option (Option Rat) := match allSome (ss.map (·.1)) with
-          | none => some none
-          | some qs => (monoApply f qs).map some
-        let hi : Option (Option Rat) := match allSome (ss.map (·.2)) with
-          | none => some none
-          | some qs => (monoApply f qs).map some
-        lo.bind fun l => hi.map fun h => (l, h)
+        (monoBound f (ss.map (·.1))).bind fun l => (monoBound f (ss.map (·.2))).map fun h => (l, h)
     | .truncnormal lo hi => some (some lo, some hi)
   def supportList (F : Formulas) (ivs : Nat → Supp) : List SExpr → Option (List Supp)
     | [] => some []
